@@ -3,11 +3,12 @@ import json
 import os
 import re
 from gen_config import *  # noqa
+from gen_config import _ext_of
 
 PROP_FILES = ["Config/Properties_C16.v"]
 MANIFEST = dict(
     technique="Coq proof (fuel measure MAX+1-depth, induction over the member chain, nested induction over TOML values) on a Gallina port of merge.rs + extends.rs + the value-level half of loader.rs, tied by differential execution of the extracted model against the re-exported merge functions, the real ExtendsResolver over an in-memory file system, and the real CLI (config show) on generated reference graphs in a temp file system",
-    text="Theorems C16_terminates, C16_is_left_fold, C16_is_left_fold_finalized, C16_merge_{child_scalar_overrides,kind_mismatch_overrides,arrays,tables}, C16_strip_commutes, C16_no_marker_survives, C16_misplaced_marker_rejected, C16_cycle_or_depth_names_chain, C16_no_extends_is_leaf, C16_flatten_equivalent hold for every file system / preset table / remote fetch result and every value (unbounded). The tie to the Rust code is a seeded differential run at three levels (value operations, resolver over an in-memory FS, CLI on a real temp FS incl. symlinks, presets, offline remote cache) plus the independent python fold oracle and the chain-vs-flattened-file metamorphic run.",
+    text="Theorems C16_terminates, C16_is_left_fold, C16_is_left_fold_finalized, C16_merge_{child_scalar_overrides,kind_mismatch_overrides,arrays,tables}, C16_strip_commutes, C16_no_marker_survives, C16_misplaced_marker_rejected, C16_malformed_inheritance_key_rejected, C16_alias_{renamed_to_canonical,key_gone,other_keys_kept,idempotent}, C16_cycle_or_depth_names_chain, C16_no_extends_is_leaf, C16_flatten_equivalent hold for every file system / preset table / remote fetch result and every value (unbounded). The tie to the Rust code is a seeded differential run at three levels (value operations, resolver over an in-memory FS, CLI on a real temp FS incl. symlinks, presets, offline remote cache) plus the independent python fold oracle and the chain-vs-flattened-file metamorphic run.",
     note="Trusted: Coq kernel, extraction, harness sgv-config (its load_top replicates the ten value-level lines of FileConfigLoader::load_from_path; the CLI runs cover the real loader), the toml crate (parse / serialise / typed re-parse are not modelled: covered by the metamorphic run only). Termination of the Rust recursion is observed, the theorem is about the model.",
     ref="5 (C16)")
 
@@ -228,8 +229,31 @@ def cli_world(sb, rng, presets, kind):
             v[1]["extends_sha256"] = ("s", sha256_hex(text))
         elif r < 0.55:
             v[1]["extends_sha256"] = ("s", "f" * 64)
+        elif r < 0.7:
+            v[1]["extends_sha256"] = rng.choice([("i", 12345), ("b", True), ("a", [("s", sha256_hex(text))])])     # D66
+            tag = "remote+nonstring-pin"
         remote = (URL_CLI, text if rng.random() < 0.9 else None, rv)
         nodes[leafp] = v
+        leaf = leafp
+    elif kind == "badkey":
+        # D66 / D68: an inheritance key that is present but not a string, in the leaf or in its base
+        leafp, basep = proj + "/leaf.toml", proj + "/sub/base.toml"
+        v, b = docgen(rng), docgen(rng)
+        bad = rng.choice([("i", 5), ("b", True), ("a", [("s", "sub/base.toml")]), ("t", {"path": ("s", "sub/base.toml")}), ("f", fbits(0.5))])
+        where = rng.choice(["leaf-extends", "leaf-pin", "base-extends", "base-pin"])
+        tag = "badkey-" + where
+        if where == "leaf-extends":
+            v[1]["extends"] = bad
+        else:
+            v[1]["extends"] = ("s", relref(rng, leafp, basep))
+            if where == "leaf-pin":
+                v[1]["extends_sha256"] = bad
+            elif where == "base-extends":
+                b[1]["extends"] = bad
+            else:
+                b[1]["extends_sha256"] = bad
+        nodes[leafp] = v
+        nodes[basep] = b
         leaf = leafp
     else:  # preset
         leafp = proj + "/leaf.toml"
@@ -297,7 +321,7 @@ def run_cli(ctx, env, n, st):
     rng = ctx.rng
     cli = env["cli"]
     for idx in range(n):
-        kind = rng.choice(["chain", "chain", "chain", "graph", "graph", "symlink", "remote", "preset", "case", "case"])
+        kind = rng.choice(["chain", "chain", "chain", "graph", "graph", "symlink", "remote", "preset", "case", "case", "badkey"])
         no_ext = rng.random() < 0.15
         with Sandbox("sgv-c16-") as sb:
             w, leaf, tag = cli_world(sb, rng, env["presets"], kind)
@@ -321,6 +345,28 @@ def run_cli(ctx, env, n, st):
             exp = mo if coarse(norm_res(mo)) == coarse(sl) else None
             # spec oracle: expectation from the independent fold
             target = sl
+            leafv = w.files.get(leaf, (None, ("M",)))[1]
+            if no_ext and leafv[0] == "V" and leafv[1][0] == "t" and _ext_of(leafv[1]) is not None and not misplaced(leafv[1]) and bad_key(leafv[1]) is None:
+                # fix D65: --no-extends config validate = config validate of the leaf with its (well-typed) inheritance keys removed
+                sb.write("alone/leaf_alone.toml", toml_text(rm_ext(leafv[1]), rng))
+                rcv, _, errv = sb.run(cli, ["--color", "never", *extra, "config", "validate", "-c", leaf], env={"RAYON_NUM_THREADS": "1"})
+                rca, _, erra = sb.run(cli, ["--color", "never", "config", "validate", "-c", "alone/leaf_alone.toml"], env={"RAYON_NUM_THREADS": "1"})
+                st["cli_spawns"] += 2
+                st["evals"] += 1
+                st["hist"]["cli:validate+noext"] = st["hist"].get("cli:validate+noext", 0) + 1
+                if rcv != rca:
+                    st["fails"].append(dict(desc, what="--no-extends config validate (exit %d) differs from config validate of the leaf with its extends line removed (exit %d)" % (rcv, rca),
+                                            validate={"stderr": errv[-300:], "alone_stderr": erra[-300:]}))
+                else:
+                    st["agree_cli"] += 1
+            if no_ext and leafv[0] == "V" and bad_key(leafv[1]) is not None and target.startswith("OK"):
+                # the leaf alone goes to the typed parse, which rejects a non-string extends / extends_sha256
+                if rc != 2 or "expected a string" not in err:
+                    st["fails"].append(dict(desc, what="--no-extends: the leaf carries %s that is not a string and config show exits %d" % (bad_key(leafv[1]), rc)))
+                else:
+                    st["agree_cli"] += 1
+                st["cli_spawns"] += 1
+                continue
             if target.startswith("OK"):
                 v = unwire(target.split(" ", 2)[2])
                 flat = rm_ext(v)
@@ -480,7 +526,12 @@ def run_corpus(ctx, env, st):
             sb.write(".sloc-guard.toml", "")
             for name, text in j["files"].items():
                 sb.write("cfg/" + name, text)
-            rc, out, err = sb.run(env["cli"], ["--color", "never", *j["flags"], "config", "show", "--format", "json", "-c", "cfg/" + j["leaf"]])
+            for url, body in j.get("cache", {}).items():
+                sb.write(".sloc-guard/remote-configs/%s.toml" % sha256_hex(url), body)
+            cmd = {"show": ["config", "show", "--format", "json", "-c", "cfg/" + j["leaf"]],
+                   "validate": ["config", "validate", "-c", "cfg/" + j["leaf"]],
+                   "check": ["check", "--no-sloc-cache", "-c", "cfg/" + j["leaf"], "."]}[j.get("command", "show")]
+            rc, out, err = sb.run(env["cli"], ["--color", "never", *j["flags"], *cmd])
             st["evals"] += 1
             st["cli_spawns"] += 1
             st["hist"]["corpus"] = st["hist"].get("corpus", 0) + 1
@@ -560,11 +611,12 @@ def run(ctx):
     ctx.cov["rule"] = ("seeded generators at three levels: (1) value operations merge / merge_arrays / is_reset_element / strip / has_any / validate / fold on random "
                        "TOML values (scalars of every type, nested tables, string arrays, arrays of rule tables, markers at first and later positions, near-markers) "
                        "against the re-exported functions; (2) reference graphs (chains 1..13, graphs over <=5 files with self-loops and longer cycles, presets, offline "
-                       "remote cache incl. hash, relative / dotted / absolute spellings, aliases, missing and malformed members, non-string extends, --no-extends) against "
+                       "remote cache incl. hash, relative / dotted / absolute spellings, aliases, missing and malformed members, extends / extends_sha256 that are not strings in the leaf or in a base, "
+                       "structure.deny_files under its serde alias deny_file_patterns in any member, --no-extends) against "
                        "the real ExtendsResolver over an in-memory FileSystem; (3) the same shapes on a real temp file system (symlinked files and directories) through "
                        "sgcli config show, compared with config show of the file flattened by the independent python fold; chain members whose paths differ only in letter case (file and "
                        "directory names) at levels 2 and 3; (4) --no-extends with a DISCOVERED leaf (./.sloc-guard.toml or the user-config fallback) through explain / check / stats, compared with the same "
-                       "leaf with its inheritance keys removed. Every case: impl vs extracted Coq model and impl vs "
+                       "leaf with its inheritance keys removed; --no-extends config validate against config validate of the leaf without its inheritance keys. Every case: impl vs extracted Coq model and impl vs "
                        "python spec. non-trivial = distinct case where the merge really combines both sides or a marker is involved (values), or a chain of >= 2 members / a cycle / a depth error (graphs)")
     ctx.cov["trusted_base"] = TRUSTED_COMMON + [
         "harness load_top replicates the value-level lines of FileConfigLoader::load_from_path (the CLI level runs the real loader)",
